@@ -868,6 +868,15 @@ class Engine:
         """resume: propagate the panic to the caller's unwind edge"""
         fr = st.frames.pop()
         st.unwinding = True
+        if fr.tag == 'cont':
+            # the continuation registered for this frame's return value is abandoned - unless it catches the unwind
+            tag, data = st.meta['conts'][-1]
+            st.meta['conts'] = st.meta['conts'][:-1]
+            if tag == 'catch_unwind':
+                st.unwinding = False
+                return self.conts[tag](self, st, data, None)
+        if fr.tag == 'filter_pred':
+            st.meta['filter_stack'] = st.meta['filter_stack'][:-1]
         if not st.frames or fr.ret_bb is None:
             st.status = 'panicked'
             st.result = None
@@ -950,8 +959,9 @@ class Engine:
             import copy
             t = copy.copy(t)
             t.func = callee
+        norm = _strip_modules(callee)
         for rx, h in self.models:
-            if rx.search(callee):
+            if rx.search(callee) or (norm != callee and (rx.search(norm) or _norm_rx(rx).search(norm))):
                 self.stats.modelled[rx.pattern] = self.stats.modelled.get(rx.pattern, 0) + 1
                 r = h(self, st, fr, t, args)
                 if r is NotImplemented:
@@ -1117,6 +1127,27 @@ def _callee_short(callee):
         return f"<{selfty[:70]}>::{trait}::{m.group(3)}"
     s = strip_generics(s)
     return s[-100:]
+
+
+_MODSEG = re.compile(r'(?<![A-Za-z0-9_])(?:[a-z_][a-z0-9_]*::)+(?=[A-Z{]|dyn )')
+
+
+_PATSEG = re.compile(r'(?<![A-Za-z0-9_])(?:[a-z_][a-z0-9_]*::)+(?=[A-Z{]|dyn |\((?:\?:)?[A-Z])')
+_NORM_RX = {}
+
+
+def _norm_rx(rx):
+    """the same pattern with the module prefixes of type and trait names removed, for matching module-stripped callee text"""
+    r = _NORM_RX.get(rx.pattern)
+    if r is None:
+        r = _NORM_RX[rx.pattern] = re.compile(_PATSEG.sub('', rx.pattern), rx.flags)
+    return r
+
+
+def _strip_modules(s):
+    """`futures::futures_channel::mpsc::UnboundedSender<..>` -> `UnboundedSender<..>` (rustc prints the same item with
+    different module prefixes depending on what is in scope)"""
+    return _MODSEG.sub('', s)
 
 
 def _contains_tracked(v, depth=0):
